@@ -130,6 +130,21 @@ class Import:
     file: "File"
     as_name: Optional[str] = None
     parent: Any = None
+    spelling: Optional[str] = None  # the path as written, if not the plain file name ("./x.bitproto", "././x.bitproto")
+
+    @property
+    def path_text(self) -> str:
+        """The import path as written: relative to the directory of the importing file (docs/language: import)."""
+        if self.spelling:
+            return self.spelling
+        here = self.parent
+        while here is not None and not isinstance(here, File):
+            here = getattr(here, "parent", None)
+        if here is None or (not here.subdir and not self.file.subdir):
+            return self.file.filename
+        import posixpath
+
+        return posixpath.relpath(self.file.filename, posixpath.dirname(here.filename) or ".")
 
     @property
     def name(self) -> str:
@@ -143,10 +158,11 @@ class File:
     # items in declaration order: Import | Const | Alias | Enum | Message
     items: List[Any] = field(default_factory=list)
     options: List[Tuple[str, Union[int, bool, str]]] = field(default_factory=list)
+    subdir: str = ""  # directory of the file below the source root ("" | "sub" | "sub/deep")
 
     @property
     def filename(self) -> str:
-        return self.base + ".bitproto"
+        return (self.subdir + "/" if self.subdir else "") + self.base + ".bitproto"
 
     def imports(self) -> List[Import]:
         return [x for x in self.items if isinstance(x, Import)]
